@@ -103,8 +103,8 @@ m("M06h_accept_fallthrough", ["C06"], [("pdf/src/crypt.rs",
    "                if check_password_rc4(level, dict.u.as_bytes(), id, &key[..key_size]) {\n                    let decoder = Decoder::new(key, key_size, method, dict.encrypt_metadata);\n                    Ok(decoder)\n                } else {\n                    Err(PdfError::InvalidPassword)\n                }",
    "                let _ = check_password_rc4(level, dict.u.as_bytes(), id, &key[..key_size]);\n                let decoder = Decoder::new(key, key_size, method, dict.encrypt_metadata);\n                Ok(decoder)")],
   expect="C06-G3", note="any owner password accepted for RC4 documents")
-m("M06i_aesv2_rc4", ["C06"], [("pdf/src/crypt.rs", "                    CryptMethod::V2 | CryptMethod::AESV2 => (\n                        default.length.map(|n| 8 * n).unwrap_or(dict.bits),\n                        default.method,\n                    ),",
-   "                    CryptMethod::V2 | CryptMethod::AESV2 => (\n                        default.length.map(|n| 8 * n).unwrap_or(dict.bits),\n                        CryptMethod::V2,\n                    ),")],
+m("M06i_aesv2_rc4", ["C06"], [("pdf/src/crypt.rs", "                    CryptMethod::V2 | CryptMethod::AESV2 => (\n                        default.length.map(|n| n.saturating_mul(8)).unwrap_or(dict.bits),\n                        default.method,\n                    ),",
+   "                    CryptMethod::V2 | CryptMethod::AESV2 => (\n                        default.length.map(|n| n.saturating_mul(8)).unwrap_or(dict.bits),\n                        CryptMethod::V2,\n                    ),")],
   expect=None, note="AESV2 documents decrypted with RC4 — value-level method selection; expected to be missed by structure rules unless TABLE covers from_password")
 
 # ------------------------------------------------------------------ C05
@@ -162,13 +162,13 @@ m("M13c_object_not_sync", ["C13"], [("pdf/src/object/mod.rs", "pub trait Object:
   note="does not compile (AnySync::new needs Sync+Send): engine failure expected, kept as fail-closed control")
 
 # ------------------------------------------------------------------ C17
-m("M17a_resolve_no_base", ["C17"], [("pdf/src/file.rs", "let mut lexer = Lexer::with_offset(t!(self.backend.read(self.start_offset + pos ..)), self.start_offset + pos);",
-   "let mut lexer = Lexer::with_offset(t!(self.backend.read(pos ..)), pos);")], expect="C17-UNITS")
+m("M17a_resolve_no_base", ["C17"], [("pdf/src/file.rs", "let pos = t!(self.start_offset.checked_add(pos).ok_or(PdfError::Invalid));\n                    let mut lexer",
+   "let mut lexer")], expect="C17-UNITS")
 m("M17b_prev_no_base", ["C17"], [("pdf/src/backend.rs", "            let pos = t!(start_offset.checked_add(prev_xref_offset).ok_or(PdfError::Invalid));\n            let mut lexer = Lexer::with_offset(t!(self.read(pos..)), pos);",
    "            let pos = prev_xref_offset;\n            let mut lexer = Lexer::with_offset(t!(self.read(pos..)), pos);")], expect="C17-UNITS", note="needs a prefixed file with an incremental update")
 m("M17c_window16", ["C17"], [("pdf/src/backend.rs", "let buf = t!(self.read(..std::cmp::min(1024, self.len())));", "let buf = t!(self.read(..std::cmp::min(16, self.len())));")], expect="C17-TABLE")
-m("M17d_lexer_offset0", ["C17"], [("pdf/src/file.rs", "let mut lexer = Lexer::with_offset(t!(self.backend.read(self.start_offset + pos ..)), self.start_offset + pos);",
-   "let mut lexer = Lexer::with_offset(t!(self.backend.read(self.start_offset + pos ..)), pos);")], expect="C17-UNITS", note="stream ranges of a prefixed file are shifted by the prefix length")
+m("M17d_lexer_offset0", ["C17"], [("pdf/src/file.rs", "let pos = t!(self.start_offset.checked_add(pos).ok_or(PdfError::Invalid));\n                    let mut lexer = Lexer::with_offset(t!(self.backend.read(pos ..)), pos);",
+   "let abs = t!(self.start_offset.checked_add(pos).ok_or(PdfError::Invalid));\n                    let mut lexer = Lexer::with_offset(t!(self.backend.read(abs ..)), pos);")], expect="C17-UNITS", note="stream ranges of a prefixed file are shifted by the prefix length")
 m("M17e_decode_rebase", ["C17"], [("pdf/src/file.rs", "        let data = self.backend.read(range)?;\n", "        let data = self.backend.read(self.start_offset + range.start .. self.start_offset + range.end)?;\n")], expect="C17-UNITS", note="absolute stream range rebased twice")
 m("M17f_last_marker", ["C17"], [("pdf/src/backend.rs", "            .position(|window| window == HEADER)", "            .rposition(|window| window == HEADER)")], expect="C17-TABLE")
 m("M17g_version_abs", ["C17"], [("pdf/src/file.rs", "self.backend.read(self.start_offset+1..self.start_offset+8)", "self.backend.read(1..8)")], expect="C17-UNITS", note="version string of a prefixed file read from the junk")
@@ -240,20 +240,20 @@ m("M10e_entries_unbounded", ["C10"], [("pdf/src/xref.rs", "        for &x in sel
 m("M10f_header", ["C10"], [("pdf/src/file.rs", 'backend: Vec::from(&b"%PDF-1.7\\n"[..]),', 'backend: Vec::from(&b"\\n%PDF-1.7\\n"[..]),')], expect="C10-G1")
 
 # ------------------------------------------------------------------ C11
-m("M11a_slice_end", ["C11"], [("pdf/src/object/stream.rs", "            self.inner.info.first + self.offsets[index + 1]\n        };", "            self.inner.info.first + self.offsets[index]\n        };")], expect="C11-G2")
+m("M11a_slice_end", ["C11"], [("pdf/src/object/stream.rs", "            first.checked_add(self.offsets[index + 1]).ok_or(PdfError::Invalid)?\n        };", "            first.checked_add(self.offsets[index]).ok_or(PdfError::Invalid)?\n        };")], expect="C11-G2")
 m("M11b_stream_any_flags", ["C11"], [("pdf/src/file.rs", "                    parse(slice, resolve, flags)\n", "                    parse(slice, resolve, ParseFlags::ANY)\n")], expect="C11-SIB", note="compressed objects bypass the caller's type filter")
 m("M11c_last_member", ["C11"], [("pdf/src/object/stream.rs", "let end = if index == self.offsets.len() - 1 {", "let end = if index + 1 >= self.offsets.len() - 1 {")], expect="C11-G2", note="second-to-last member extends to the end of the data")
 m("M11d_length_any", ["C11"], [("pdf/src/parser/mod.rs", "t!(t!(r.resolve_flags(reference, ParseFlags::INTEGER, 1)).as_usize())", "t!(t!(r.resolve_flags(reference, ParseFlags::ANY, 1)).as_usize())")], expect="C11-G3", note="filter widened: a /Length pointing at a stream object makes the resolver parse that stream (recursion)")
-m("M11e_first_dropped", ["C11"], [("pdf/src/object/stream.rs", "        let start = self.inner.info.first + self.offsets[index];", "        let start = self.offsets[index];")], expect="C11-G2")
+m("M11e_first_dropped", ["C11"], [("pdf/src/object/stream.rs", "        let start = first.checked_add(self.offsets[index]).ok_or(PdfError::Invalid)?;", "        let start = self.offsets[index];")], expect="C11-G2")
 
 # ------------------------------------------------------------------ C07
-m("M07a_no_pos_incr", ["C07"], [("pdf/src/object/types.rs", "                    if pos == page_nr {\n                        return Ok(PageRc(node));\n                    }\n                    pos += 1;", "                    if pos == page_nr {\n                        return Ok(PageRc(node));\n                    }")], expect="C07-G1", note="(changes single-level documents too) leaf not counted")
+m("M07a_no_pos_incr", ["C07"], [("pdf/src/object/types.rs", "                    if pos == page_nr {\n                        return Ok(PageRc(node));\n                    }\n                    pos = try_opt!(pos.checked_add(1));", "                    if pos == page_nr {\n                        return Ok(PageRc(node));\n                    }")], expect="C07-G1", note="(changes single-level documents too) leaf not counted")
 m("M07b_depth_not_decremented", ["C07"], [("pdf/src/object/types.rs", "return tree.page_limited(resolve, page_nr - pos, depth - 1);", "return tree.page_limited(resolve, page_nr - pos, depth);")], expect="C07-REC", note="cyclic /Kids -> stack overflow")
 m("M07c_crop_field", ["C07"], [("pdf/src/object/types.rs", "                Some(b) => Ok(b),\n                None => self.media_box()\n            }", "                Some(b) => Ok(b),\n                None => self.media_box.ok_or_else(|| PdfError::MissingEntry { typ: \"Page\", field: \"MediaBox\".into() })\n            }")],
   expect="C07-G2", note="page without own boxes, media box only on an ancestor")
 m("M07d_inherit_farthest", ["C07"], [("pdf/src/object/types.rs", "            (_, Some(t)) => return Ok(Some(t)),\n            (Some(ref p), None) => parent = p,\n            (None, None) => return Ok(None)",
    "            (Some(ref p), _) => parent = p,\n            (None, Some(t)) => return Ok(Some(t)),\n            (None, None) => return Ok(None)")], expect="C07-G2", note="attribute taken from the root instead of the nearest ancestor")
-m("M07e_subtree_skip_no_count", ["C07"], [("pdf/src/object/types.rs", "                    pos += tree.count;\n                }", "                    pos += 1;\n                }")], expect="C07-G1", note="subtrees counted as one page: only nested trees are affected")
+m("M07e_subtree_skip_no_count", ["C07"], [("pdf/src/object/types.rs", "                    let end = match pos.checked_add(tree.count) {", "                    let end = match pos.checked_add(1) {")], expect="C07-G1", note="subtrees counted as one page: only nested trees are affected")
 m("M07f_num_pages_kids", ["C07"], [("pdf/src/file.rs", "        self.trailer.root.pages.count\n", "        self.trailer.root.pages.kids.len() as u32\n")], expect="C07-G3", note="nested trees")
 m("M07g_cropbox_from_media", ["C07"], [("pdf/src/object/types.rs", "            None => match inherit(&self.parent, |pt| pt.crop_box)? {", "            None => match inherit(&self.parent, |pt| pt.media_box)? {")], expect="C07-G2")
 
@@ -311,9 +311,18 @@ def main():
             print(x["name"], x["props"], x["expect"])
     elif cmd == "gen":
         os.makedirs(OUT, exist_ok=True)
+        nbad = 0
         for x in sel:
+            try:
+                txt = gen_patch(x)
+            except SystemExit as e:
+                print(e)
+                nbad += 1
+                continue
             with open(os.path.join(OUT, x["name"] + ".patch"), "w") as f:
-                f.write(gen_patch(x))
+                f.write(txt)
+        if nbad:
+            print("%d mutants no longer match the source" % nbad)
         with open(os.path.join(OUT, "index.json"), "w") as f:
             json.dump([{k: x[k] for k in ("name", "props", "expect", "note")} for x in M], f, indent=1)
         print("generated %d patches" % len(sel))
